@@ -1,4 +1,5 @@
 import Model.Spec
+import Proofs.Merkle
 
 /-!
 # C17 — the merkle commitment binds the ordered transaction list; proofs verify
@@ -25,14 +26,15 @@ def LeafIsInner (t t' : MNode) : Prop :=
 
 /-- `get_merkle_root` terminates with a value on every non-empty list -/
 theorem root_defined (l : List Bytes) (hl : l ≠ []) : ∃ r, merkleRoot h l = some r := by
-  sorry
+  obtain ⟨t, _, hr, _⟩ := Merkle.tree_hash_eq_root h l hl
+  exact ⟨_, hr⟩
 
 /-- `get_merkle_tree` is defined on every non-empty list, has the entries as its leaves in
 order (indexed 0, 1, …), and its hash is the root -/
 theorem tree_hash_eq_root (l : List Bytes) (hl : l ≠ []) :
     ∃ t, merkleTree l = some t ∧ merkleRoot h l = some (t.hash h) ∧
       t.leaves = (List.range l.length).zip l := by
-  sorry
+  exact Merkle.tree_hash_eq_root h l hl
 
 /-- two trees with the same hash have the same leaf values in the same order, or a collision
 is exhibited, or a leaf of one is an inner node of the other -/
@@ -40,7 +42,57 @@ theorem tree_hash_injective (hh : ∀ x, (h x).length = 32) (t t' : MNode)
     (hl : ∀ v ∈ t.leaves.map (·.2), v.length = 32) (hl' : ∀ v ∈ t'.leaves.map (·.2), v.length = 32)
     (he : t.hash h = t'.hash h) :
     t.leaves.map (·.2) = t'.leaves.map (·.2) ∨ Collision h ∨ LeafIsInner h t t' := by
-  sorry
+  induction t generalizing t' with
+  | leaf i v =>
+    cases t' with
+    | leaf i' v' =>
+      left
+      simpa [MNode.leaves, MNode.hash] using he
+    | node i' l' r' =>
+      right; right; left
+      refine ⟨v, by simp [MNode.leaves], ?_⟩
+      simp only [innerHashes, List.mem_cons]
+      exact .inl he
+  | node i l r ihl ihr =>
+    cases t' with
+    | leaf i' v' =>
+      right; right; right
+      refine ⟨v', by simp [MNode.leaves], ?_⟩
+      simp only [innerHashes, List.mem_cons]
+      exact .inl he.symm
+    | node i' l' r' =>
+      have monoL : LeafIsInner h l l' → LeafIsInner h (.node i l r) (.node i' l' r') := by
+        intro li
+        simp only [LeafIsInner, innerHashes, MNode.leaves, List.map_append, List.mem_append,
+          List.mem_cons] at li ⊢
+        rcases li with ⟨v, hv, hin⟩ | ⟨v, hv, hin⟩
+        · exact .inl ⟨v, .inl hv, .inr (.inl hin)⟩
+        · exact .inr ⟨v, .inl hv, .inr (.inl hin)⟩
+      have monoR : LeafIsInner h r r' → LeafIsInner h (.node i l r) (.node i' l' r') := by
+        intro li
+        simp only [LeafIsInner, innerHashes, MNode.leaves, List.map_append, List.mem_append,
+          List.mem_cons] at li ⊢
+        rcases li with ⟨v, hv, hin⟩ | ⟨v, hv, hin⟩
+        · exact .inl ⟨v, .inr hv, .inr (.inr hin)⟩
+        · exact .inr ⟨v, .inr hv, .inr (.inr hin)⟩
+      simp only [MNode.leaves, List.map_append, List.mem_append] at hl hl'
+      have hll := fun v hv => hl v (.inl hv)
+      have hlr := fun v hv => hl v (.inr hv)
+      have hll' := fun v hv => hl' v (.inl hv)
+      have hlr' := fun v hv => hl' v (.inr hv)
+      have hlen : (l.hash h).length = (l'.hash h).length := by
+        rw [Merkle.length_hash h hh l hll, Merkle.length_hash h hh l' hll']
+      simp only [MNode.hash] at he
+      rcases Merkle.append_collision h _ _ _ _ hlen he with ⟨e1, e2⟩ | hc
+      · rcases ihl l' hll hll' e1 with el | hc | li
+        · rcases ihr r' hlr hlr' e2 with er | hc | li
+          · left
+            simp only [MNode.leaves, List.map_append, el, er]
+          · exact .inr (.inl hc)
+          · exact .inr (.inr (monoR li))
+        · exact .inr (.inl hc)
+        · exact .inr (.inr (monoL li))
+      · exact .inr (.inl hc)
 
 /-- the commitment changes whenever the ordered list of ids changes — by substitution,
 reordering, removal, appending or duplication — unless a collision is exhibited or an entry of
@@ -50,14 +102,25 @@ theorem root_injective (hh : ∀ x, (h x).length = 32) (l l' : List Bytes) (hl :
     (he : merkleRoot h l = merkleRoot h l') :
     l = l' ∨ Collision h ∨
       ∃ t t', merkleTree l = some t ∧ merkleTree l' = some t' ∧ LeafIsInner h t t' := by
-  sorry
+  obtain ⟨t, ht, hr, hlv⟩ := Merkle.tree_hash_eq_root h l hl
+  obtain ⟨t', ht', hr', hlv'⟩ := Merkle.tree_hash_eq_root h l' hl'
+  have e : t.leaves.map (·.2) = l := by rw [hlv, Merkle.map_snd_range_zip]
+  have e' : t'.leaves.map (·.2) = l' := by rw [hlv', Merkle.map_snd_range_zip]
+  rw [hr, hr'] at he
+  have he' : t.hash h = t'.hash h := Option.some.inj he
+  rcases tree_hash_injective h hh t t' (by rw [e]; exact h32) (by rw [e']; exact h32') he' with
+    hleaves | hc | li
+  · left; rw [← e, ← e', hleaves]
+  · exact .inr (.inl hc)
+  · exact .inr (.inr ⟨t, t', ht, ht', li⟩)
 
 /-- same length (substitution, reordering): no inner/leaf confusion is possible -/
 theorem root_injective_same_length (hh : ∀ x, (h x).length = 32) (l l' : List Bytes) (hl : l ≠ [])
     (hlen : l.length = l'.length)
     (h32 : ∀ v ∈ l, v.length = 32) (h32' : ∀ v ∈ l', v.length = 32)
     (he : merkleRoot h l = merkleRoot h l') : l = l' ∨ Collision h := by
-  sorry
+  exact Merkle.root_fuel_inj h hh l.length l l' hl hlen (Nat.le_refl _) h32 h32'
+    (by unfold merkleRoot at he; rw [← hlen] at he; exact he)
 
 /-- in particular duplicating the last entry (the construction that was exploitable in
 Bitcoin) changes the commitment, up to the stated disjuncts -/
@@ -66,27 +129,84 @@ theorem duplicate_last_changes_root (hh : ∀ x, (h x).length = 32) (l : List By
     (he : merkleRoot h (l ++ [x]) = merkleRoot h (l ++ [x, x])) :
     Collision h ∨ ∃ t t', merkleTree (l ++ [x]) = some t ∧ merkleTree (l ++ [x, x]) = some t' ∧
       LeafIsInner h t t' := by
-  sorry
+  have hne : l ++ [x] ≠ l ++ [x, x] := by
+    intro e
+    have := congrArg List.length e
+    simp at this
+  have h32' : ∀ v ∈ l ++ [x, x], v.length = 32 := by
+    intro v hv
+    apply h32 v
+    simp only [List.mem_append, List.mem_cons, List.not_mem_nil, or_false] at hv ⊢
+    rcases hv with hv | hv | hv
+    · exact .inl hv
+    · exact .inr hv
+    · exact .inr hv
+  rcases root_injective h hh (l ++ [x]) (l ++ [x, x]) (by simp) (by simp) h32 h32' he with
+    e | hc | li
+  · exact absurd e hne
+  · exact .inl hc
+  · exact .inr li
 
 /-- the odd entry is promoted, not paired with itself -/
 theorem odd_entry_promoted (a b c : Bytes) :
     merkleRoot h [a, b, c] = some (h (h (a ++ b) ++ c)) := by
-  sorry
+  rfl
 
 /-- the proof the node produces reproduces the commitment … -/
 theorem proof_reproduces_root (t : MNode) (i : Nat) : (getProof h t i).hash h = t.hash h := by
-  sorry
+  exact Merkle.hash_getProof h t i
 
 /-- … and contains the entry at the requested position -/
 theorem proof_contains_entry (l : List Bytes) (hl : l ≠ []) (i : Nat) (hi : i < l.length) (t : MNode)
     (ht : merkleTree l = some t) :
     (i, l[i]) ∈ (getProof h t i).leaves := by
-  sorry
+  obtain ⟨t₀, ht₀, _, hlv⟩ := Merkle.tree_hash_eq_root h l hl
+  rw [ht] at ht₀
+  cases ht₀
+  refine Merkle.getProof_mem h (Merkle.span_merkleTree l t ht) i l[i] ?_
+  rw [hlv]
+  exact Merkle.mem_range_zip l i hi
 
 theorem proof_sound (l : List Bytes) (hl : l ≠ []) (i : Nat) (hi : i < l.length) :
     ∃ t, merkleTree l = some t ∧ merkleRoot h l = some ((getProof h t i).hash h) ∧
       (i, l[i]) ∈ (getProof h t i).leaves := by
-  sorry
+  obtain ⟨t, ht, hr, _⟩ := Merkle.tree_hash_eq_root h l hl
+  refine ⟨t, ht, ?_, proof_contains_entry h l hl i hi t ht⟩
+  rw [proof_reproduces_root]; exact hr
+
+/-! ### non-vacuity -/
+
+/-- a concrete (non-cryptographic) hash with 32-byte output -/
+def sumHash : Bytes → Bytes := fun x => List.replicate 32 (x.foldl (· + ·) 0)
+
+/-- the hypothesis `hh` is satisfiable -/
+example : ∀ x, (sumHash x).length = 32 := by intro x; simp [sumHash]
+
+/-- concrete evaluations: the odd third entry is promoted, then hashed with the first pair -/
+example : merkleRoot sumHash [[1], [2], [3]] = some (List.replicate 32 99) := by decide
+
+example : merkleRoot sumHash [] = none := by decide
+
+example : (merkleTree [[1], [2], [3]]).map (·.leaves) = some [(0, [1]), (1, [2]), (2, [3])] := by
+  decide
+
+example : (merkleTree [[1], [2], [3]]).map (fun t => (getProof sumHash t 2).leaves) =
+    some [(0, List.replicate 32 3), (2, [3])] := by decide
+
+/-- the hypotheses of `root_injective_same_length` are jointly satisfiable (32-byte entries,
+equal lengths, equal roots) and the theorem applies -/
+example : [zeros 32, zeros 32] = [zeros 32, zeros 32] ∨ Collision sumHash :=
+  root_injective_same_length sumHash (by intro x; simp [sumHash]) [zeros 32, zeros 32]
+    [zeros 32, zeros 32] (by simp) rfl (by simp [zeros]) (by simp [zeros]) rfl
+
+/-- the `Collision` disjunct is not idle: for a non-injective hash two different same-length
+lists of 32-byte entries do share a root -/
+example : merkleRoot sumHash [zeros 32, List.replicate 32 1] =
+    merkleRoot sumHash [List.replicate 32 1, zeros 32] := by
+  simp [merkleRoot, merkleRootFuel, pairUp, sumHash, zeros, List.replicate]
+
+example : [zeros 32, List.replicate 32 1] ≠ [List.replicate 32 1, zeros 32] := by
+  simp [zeros, List.replicate]
 
 end C17
 end Model
